@@ -153,6 +153,10 @@ def runs_for(pid, tier, seed):
             R('12 students, ties everywhere/text', fm.twodigit_students(NS=12, NP=3, MaxLen=3, TieMode='all', OrderMode='asctied', **ld),
               invariants=inv, simulate=500 if q else 5000),
         ]
+        runs.append(R('numbers not ordered (target > upper quota, lower > upper)/text', fm.unordered_numbers(**ld),
+                      invariants=['FamilyShaped', 'ReadRender', 'Export'], simulate=3000 if q else None))
+        runs.append(R('numbers not ordered, 2-agent/text', fm.unordered_numbers(NA=2, NL=2, Sided={'one', 'two', 'ignored'}, **ld),
+                      invariants=['FamilyShaped', 'ReadRender', 'Export'], simulate=2000 if q else None))
         for r in runs:
             r['worker'] = solverplay.replay_load
         return runs
